@@ -144,8 +144,9 @@ fn case(src: &mut Src, st: &mut Stats, _env: &Env) -> CaseResult {
     if dynamic {
         // a user operator whose precedence / associativity changes from case to case: the
         // rendering must follow the registration made last
-        let prec = *src.choose(&[115i64, 45, 125, 55, 25, 205, 65]);
-        let right = src.chance(1, 2);
+        let prec = *src.choose(&[115i64, 45, 125, 55, 25, 205, 65, 1, 0]);
+        // (a right-associative operator at precedence 0 would need a negative binding power)
+        let right = prec != 0 && src.chance(1, 2);
         expression_engine::register_infix_op(
             "vh_rt",
             prec as i32,
